@@ -1,0 +1,14 @@
+//go:build verif
+
+package server
+
+import (
+	"io"
+
+	"github.com/gorilla/websocket"
+)
+
+// VerifNewWsConn wraps an upgraded websocket connection exactly as wsHandler does.
+func VerifNewWsConn(c *websocket.Conn) io.ReadWriteCloser {
+	return &wsConn{Conn: c.UnderlyingConn(), c: c}
+}
